@@ -120,6 +120,9 @@ var Zones = []string{
 	"America/Santiago", "Africa/Cairo", "Pacific/Kiritimati", "America/St_Johns", "Asia/Kathmandu",
 	// valid names with a hyphen, a plus sign, digits, three parts
 	"America/Port-au-Prince", "Etc/GMT+5", "EST5EDT", "America/Argentina/Buenos_Aires",
+	// names that are no zones: abbreviations (which some of the TZ values the children run under know), Go's own name for the
+	// zone of the process, an offset
+	"NDT", "EDT", "Local", "+12:45",
 }
 
 var nastyTexts = []string{
